@@ -28,7 +28,7 @@ ASSUMPTIONS = [
     "semantics per vf/sem.py on arbitrary positive tables",
 ]
 BUDGET = {
-    "quick": dict(examples=500, shards=16, seconds=200),
+    "quick": dict(examples=1200, shards=16, seconds=200),
     "thorough": dict(examples=12000, shards=16, seconds=2400),
 }
 ESSENTIAL_LABELS = {t: ["object-clause", "has:frac", "has:Q", "has:pop", "has:do", "frac-with-product-denominator"] for t in ("quick", "thorough")}
